@@ -31,23 +31,25 @@ type Prog struct {
 	funcs map[string]*Func             // by ID
 	byObj map[*types.Func]*Func
 	// all source functions, sorted by ID
-	all []*Func
+	all           []*Func
+	implCache     map[string][]string
+	methodsByName map[string][]*Func
 }
 
 // Func is a source function: a declaration or a function literal.
 type Func struct {
-	Prog   *Prog
-	Pkg    *packages.Package
-	ID     string // lnwallet.LightningChannel.SignNextCommitment, or <parent>$1 for literals
-	Decl   *ast.FuncDecl
-	Lit    *ast.FuncLit
-	Obj    *types.Func // nil for literals
-	Parent *Func       // enclosing function for literals
-	Body   *ast.BlockStmt
-	Type   *ast.FuncType
-	File   *ast.File
-	Lits   []*Func // directly or indirectly nested literals, in source order
-	graph  *flow.Graph
+	Prog     *Prog
+	Pkg      *packages.Package
+	ID       string // lnwallet.LightningChannel.SignNextCommitment, or <parent>$1 for literals
+	Decl     *ast.FuncDecl
+	Lit      *ast.FuncLit
+	Obj      *types.Func // nil for literals
+	Parent   *Func       // enclosing function for literals
+	Body     *ast.BlockStmt
+	Type     *ast.FuncType
+	File     *ast.File
+	Lits     []*Func // directly or indirectly nested literals, in source order
+	graph    *flow.Graph
 	defCache map[types.Object]*defInfo
 }
 
